@@ -125,7 +125,7 @@ def run(module_name, module_text, cfg_text, workers=8, dump=False, simulate=None
         res.violated, res.violation_kind = "Deadlock", "deadlock"
     if res.violated:
         i = out.find("Error:")
-        res.trace = out[i:i + 20000]
+        res.trace = out[i:i + 4000000]
         return res
     if simulate:
         # simulation mode ends by itself when num traces are generated
